@@ -84,6 +84,9 @@ type Interp struct {
 	globals   map[*ssa.Global]*value
 	inited    map[*ssa.Package]int // 1 = in progress, 2 = done
 	initSteps int64
+	// set while vrt.Settle asks whether anybody else could run
+	quiescenceTest bool
+	settleSeq      int
 	initDepth int
 	redirects map[*ssa.Function]value
 	intrCache map[*ssa.Function]intrinsic
